@@ -396,6 +396,78 @@ def lookup_ord(prog, func, line, op):
 
 
 # ---------------------------------------------------------------------------
+# loops that are a spelled-out `set.extend(range)`
+def loop_exits_only_at_head(body, h):
+    """the loop with head h (a block calling next()) is left only at the head or at the block that
+    matches on next()'s result: it always runs until the iterator is exhausted"""
+    loops = body.loops()[0]
+    if not isinstance(h, int) or h not in loops:
+        return False
+    blocks = loops[h]
+    hs = body.succs(h)
+    ok_src = {h} | ({hs[0]} if body.blocks[h]['term']['k'] == 'call' and len(hs) == 1 and body.blocks[hs[0]]['term']['k'] == 'switch' else set())
+    for b in blocks:
+        if b in ok_src:
+            continue
+        for s2 in body.succs(b):
+            if s2 not in blocks and not body.blocks[s2].get('cleanup'):
+                return False
+    return True
+
+
+def range_insert_loops(ctx, sr, target=('S', 'dirty')):
+    """set of (func, head) of loops `for v in <range> { target.insert(v) }` (whatever else the body
+    does): every iteration inserts exactly the element of the (unadapted) range the loop iterates,
+    and the loop cannot be left early; the range itself is recorded in the loop-head event"""
+    cache = sr.setdefault('_range_loops', {})
+    if target in cache:
+        return cache[target]
+    from .values import IterV
+    prog = ctx.prog
+    by = {}
+    for sg in sr['segments']:
+        by.setdefault((sg['func'], sg['head']), []).append(sg)
+    out = set()
+    for (func, head), sgs in by.items():
+        body = prog.bodies.get(func)
+        if body is None or not loop_exits_only_at_head(body, head):
+            continue
+        ok = True
+        for sg in sgs:
+            pre, lev = seg_events(dict(sg, kind='backedge'))
+            ins = [ev for ev in lev if ev[0] == 'set.insert' and ev[1] == target]
+            if len(ins) != 1 or not isinstance(ins[0][2], NumV) or ins[0][2].sym is None or ins[0][2].k != 0:
+                ok = False
+                break
+            it = sg['st'].vn.get(('itersym', ins[0][2].sym))
+            if not isinstance(it, IterV) or it.kind != 'range' or it.ops:
+                ok = False
+                break
+        if ok:
+            out.add((func, head))
+    cache[target] = out
+    return out
+
+
+def dirty_marks(ctx, sr, evs):
+    """dirty marks on an event list: ('one', row) / ('range', lo, hi, incl); a loop that inserts every
+    element of a range counts as the range"""
+    marks = []
+    rl = None
+    for ev in evs:
+        if ev[0] == 'set.insert' and ev[1] == ('S', 'dirty'):
+            marks.append(('one', ev[2]))
+        elif ev[0] == 'set.extend' and ev[1] == ('S', 'dirty') and isinstance(ev[2], tuple) and ev[2][0] == 'range':
+            marks.append(('range', ev[2][1], ev[2][2], bool(ev[2][3])))
+        elif ev[0] == 'loop-head' and len(ev) > 4 and ev[4] is not None and not ev[4][4]:
+            if rl is None:
+                rl = range_insert_loops(ctx, sr)
+            if (ev[1], ev[2]) in rl:
+                marks.append(('range', ev[4][1], ev[4][2], bool(ev[4][3])))
+    return marks
+
+
+# ---------------------------------------------------------------------------
 # R-DIRTY
 def r_dirty(ctx, chk, funcs, rule='R-DIRTY'):
     """every row written (cell put / removed, row put / removed, write through an element reference,
@@ -434,12 +506,7 @@ def r_dirty(ctx, chk, funcs, rule='R-DIRTY'):
                 writes.append(('ALL', ev[0], ev[-2], ev[-1]))
         if not writes:
             continue
-        marks = []
-        for ev in allev:
-            if ev[0] == 'set.insert' and ev[1] == ('S', 'dirty'):
-                marks.append(('one', ev[2]))
-            elif ev[0] == 'set.extend' and ev[1] == ('S', 'dirty') and isinstance(ev[2], tuple) and ev[2][0] == 'range':
-                marks.append(('range', ev[2][1], ev[2][2], bool(ev[2][3])))
+        marks = dirty_marks(ctx, sr, allev)
         # marks that follow in the same function after a loop are not visible on a back-edge segment:
         # a pending row is allowed there only if it is the current cursor row (deferred mark)
         cur_y = get(eng, st, 'cursor', 'y')
@@ -470,6 +537,7 @@ def r_dirty(ctx, chk, funcs, rule='R-DIRTY'):
             d['n'] += 1
             if covered == 'deferred':
                 d['deferred'] = True
+                d.setdefault('loopfuncs', set()).add(seg['func'])      # the function whose loop carries the pending row
             if not covered and d['ok']:
                 d['ok'] = False
                 d['why'] = 'row %s written, dirty marks on the path: %s | %s' % (
@@ -484,7 +552,7 @@ def r_dirty(ctx, chk, funcs, rule='R-DIRTY'):
                      what='a row whose appearance changes is not in the dirty set: ' + d['why'])
     # exit clause for deferred marks
     ndef = 0
-    for f in sorted({d['func'] for d in results.values() if d['deferred']}):
+    for f in sorted({lf for d in results.values() if d['deferred'] for lf in d.get('loopfuncs', {d['func']})}):
         bad = []
         cnt = 0
         eps_using = [e for e in sr['results'] if e in funcs]
